@@ -115,6 +115,19 @@ func TestC14(t *testing.T) {
 			c.Order = rapid.Permutation(intRange(n)).Draw(t, "start_order")
 			if n >= 3 && rapid.Bool().Draw(t, "with_prelude") {
 				c.Prelude = rapid.IntRange(1, minInt(3, n-2)).Draw(t, "prelude")
+				if rapid.Bool().Draw(t, "all_inflate") {
+					// everyone sends gzip and the backend takes none: every RPC of the batch goes through
+					// the transcoder's decompressor pool
+					cfg.Compressions = []string{}
+					c.Config = cfg
+					for i := range c.Batch {
+						c.Batch[i].Config = cfg
+						if c.Batch[i].Client.Form != FormConnectGet || c.Batch[i].Client.Compression != "" {
+							c.Batch[i].Client.Compression, c.Batch[i].Client.Identity = CompGzip, false
+							c.Batch[i].Client.MsgRaw = nil
+						}
+					}
+				}
 				for _, i := range c.Order[:c.Prelude] {
 					// the prelude is made of requests that fail inside the transcoder
 					sc := &c.Batch[i]
